@@ -453,8 +453,66 @@ int main(int argc, char **argv) {
       };
       R.add(sp);
     };
+    // grids with every set of at most K removed cells (several holes -> several split symbols / topology split events)
+    auto add_holes = [&](const std::string &name, int W, int H, int K, bool quick, bool thorough) {
+      const uint64_t sets = gs::removed_cell_sets(W * H, K);
+      mc::Radix rx{3, 2, sets};  // (cfg: eb standard s0, eb valence s0, eb standard s5 + generic attribute) x diagonals x removed set
+      auto make = [=](uint64_t idx, Bytes *out, std::string *what) -> bool {
+        auto d = rx.decode(idx);
+        GeomDef g = gs::tri_subset_mesh(W, H, (int)d[1], gs::grid_minus_cells_mask(W, H, K, d[2]));
+        EncCfg c = gs::mesh_cfg(d[0] == 1 ? 3 : 2, d[0] == 2 ? 5 : 0);
+        c.qbits = {11};
+        if (d[0] == 2) {
+          AttDef gen;
+          gen.type = GeometryAttribute::GENERIC;
+          gen.dt = DT_UINT8;
+          gen.nc = 1;
+          gen.uid = 3;
+          for (int i = 0; i < g.num_points; ++i) gen.entries.push_back(bytes_of(std::vector<uint8_t>{(uint8_t)(i * 11)}));
+          g.atts.push_back(gen);
+          c.qbits.push_back(0);
+        }
+        std::string cells;
+        for (int cc : gs::unrank_cell_set(W * H, K, d[2])) cells += (cells.empty() ? "" : ",") + std::to_string(cc);
+        *what = std::to_string(W) + "x" + std::to_string(H) + " cell grid without cells {" + cells + "}, diagonals " + (d[1] ? "alternating" : "uniform") +
+                (d[0] == 0 ? ", standard speed 0 position only" : d[0] == 1 ? ", valence speed 0 position only" : ", speed 5 + generic attribute");
+        if (g.faces.empty()) return false;
+        auto mesh = build_mesh(g);
+        EncResult r = encode(g, *mesh, mesh.get(), c);
+        if (!r.ok) return false;
+        *out = r.bytes;
+        return true;
+      };
+      mc::Space sp;
+      sp.name = name;
+      sp.size = rx.size();
+      sp.quick = quick;
+      sp.thorough = thorough;
+      sp.timeout_s = 20;
+      sp.run = [=](uint64_t idx, mc::Ctx &ctx) {
+        Bytes b;
+        std::string what;
+        if (!make(idx, &b, &what)) {
+          ctx.count("triangle_subset_not_encodable");
+          return;
+        }
+        ctx.count("valid_holey_grid_streams");
+        if (ctx.nontrivial(mc::hash_bytes(b.data(), b.size()))) ctx.count("distinct_inputs");
+        run_decode(b, 0, ctx, "", what + " entry=0");
+      };
+      sp.describe = [=](uint64_t idx) {
+        Bytes b;
+        std::string what;
+        const bool ok = make(idx, &b, &what);
+        return what + " entry=0 len=" + std::to_string(b.size()) + (ok ? " hex=" + mc::hex(b.data(), std::min<size_t>(b.size(), 4096)) : "");
+      };
+      R.add(sp);
+    };
+    add_holes("valid_grid_5x5_minus_up_to_3_cells", 5, 5, 3, true, true);
+    add_holes("valid_grid_5x5_minus_up_to_4_cells", 5, 5, 4, false, true);
+    add_holes("valid_grid_6x5_minus_up_to_3_cells", 6, 5, 3, false, true);
     add_subsets("valid_triangle_subsets_3x2", 3, 2, true, false);
-    add_subsets("valid_triangle_subsets_3x3", 3, 3, g_mode == M_C03, true);
+    add_subsets("valid_triangle_subsets_3x3", 3, 3, false, g_mode == M_C03);
   }
   Mutator trunc = [](const Entry &e, uint64_t k, Bytes *out, std::string *op) {
     out->assign(e.bytes.begin(), e.bytes.begin() + k);
